@@ -1185,10 +1185,12 @@ impl<'a, 'b, W: Write> Serializer for &'a mut YamlSerializer<'b, W> {
                     let indent_str = indent_buf.as_str();
 
                     if content.is_empty() {
-                        if trailing_nl >= 1 {
+                        // Only line breaks: one empty content line per line break. A single one is
+                        // written with clip chomping (`|`), two or more with keep chomping (`|+`),
+                        // which reads back one line break per empty line.
+                        for _ in 0..trailing_nl {
                             self.out.write_str(indent_str)?;
                             self.at_line_start = false;
-                            // write a single empty content line
                             self.newline()?;
                         }
                     } else {
